@@ -77,27 +77,32 @@ fn main() -> ExitCode {
         }
     }
 
-    if env::args().len() == 1 {
+    if env::args_os().len() == 1 {
         short_usage_info(no_color);
         help_hint();
         return ExitCode::SUCCESS;
     }
 
-    let mut args: Vec<String> = env::args().collect();
+    // arguments that are not valid Unicode are taken as they can be displayed
+    let mut args: Vec<String> = env::args_os()
+        .map(|arg| arg.to_string_lossy().into_owned())
+        .collect();
     args.remove(0);
+
+    // an option is a whole argument: a query that merely contains or starts with the letters
+    // of one (`name from helpers`, `-count(*)`) is a query
+    fn is_option(arg: &str, spellings: &[&str]) -> bool {
+        spellings.iter().any(|spelling| arg.eq_ignore_ascii_case(spelling))
+    }
 
     let mut first_arg = args[0].to_ascii_lowercase();
 
-    if first_arg.contains("version") || first_arg.starts_with("-v") {
+    if is_option(&first_arg, &["--version", "-v", "/v", "/version", "version"]) {
         short_usage_info(no_color);
         return ExitCode::SUCCESS;
     }
 
-    if first_arg.contains("help")
-        || first_arg.starts_with("-h")
-        || first_arg.starts_with("/?")
-        || first_arg.starts_with("/h")
-    {
+    if is_option(&first_arg, &["--help", "-h", "/?", "/h", "/help", "help"]) {
         usage_info(config, default_config, no_color);
         return ExitCode::SUCCESS;
     }
@@ -105,23 +110,17 @@ fn main() -> ExitCode {
     let mut interactive = false;
 
     loop {
-        if first_arg.contains("nocolor") || first_arg.contains("no-color") {
+        if is_option(&first_arg, &["--nocolor", "--no-color", "/nocolor", "/no-color"]) {
             no_color = true;
-        } else if first_arg.starts_with("-i")
-            || first_arg.starts_with("--i")
-            || first_arg.starts_with("/i")
-        {
+        } else if is_option(&first_arg, &["-i", "--interactive", "/i", "/interactive"]) {
             interactive = true;
-        } else if first_arg.starts_with("-c")
-            || first_arg.starts_with("--config")
-            || first_arg.starts_with("/c")
-        {
+        } else if is_option(&first_arg, &["-c", "--config", "/c", "/config"]) {
             if args.len() < 2 {
                 error_message("config", "path to the configuration file expected");
                 return ExitCode::from(2);
             }
 
-            let config_path = args[1].to_ascii_lowercase();
+            let config_path = args[1].clone();
             config = match Config::from(PathBuf::from(&config_path)) {
                 Ok(cnf) => cnf,
                 Err(err) => {
@@ -230,7 +229,10 @@ fn exec_search(query: Vec<String>, config: &mut Config, default_config: &Config,
             let use_colors = !no_color && is_terminal;
 
             let mut searcher = Searcher::new(&query, config, default_config, use_colors);
-            searcher.list_search_results().unwrap();
+            if let Err(err) = searcher.list_search_results() {
+                error_message("search", &err.to_string());
+                return 1;
+            }
 
             let error_count = searcher.error_count;
             match error_count {
